@@ -417,6 +417,34 @@ def odd_signature_cases(res):
     seen.append(('tag2', name, other, rest, tuple(sorted(attrs.items()))))
     return (name, other, attrs)
 
+  def _shared_init(self, a, b=R):
+    seen.append(('K.__init__', a, b))
+    self.a, self.b = a, b
+
+  def _shared_new(cls, a, b=R):
+    seen.append(('N.__new__', a, b))
+    o = object.__new__(cls)
+    o.a, o.b = a, b
+    return o
+
+  def mk_alias(kind):
+    # `__init__ = _shared_init`: the constructor is found under a name that is not the function's own __name__
+    ns = {'__init__': _shared_init} if kind == 'init' else {'__new__': _shared_new}
+    return type('Alias_' + kind, (), ns)
+
+  def mk_new_below_init():
+    class CoopBase:
+      def __init__(self, *args, **kwargs):
+        seen.append(('CoopBase.__init__', args, tuple(sorted(kwargs.items()))))
+
+    class Widget(CoopBase):
+      def __new__(cls, size, colour=R):
+        seen.append(('Widget.__new__', size, colour))
+        o = super().__new__(cls)
+        o.size, o.colour = size, colour
+        return o
+    return Widget
+
   def has_marker(x):
     if x is R:
       return True
@@ -431,6 +459,13 @@ def odd_signature_cases(res):
       ('posonly_kwargs_other_name', lambda: tag, {}, lambda f: f('input', colour=R), ['colour']),
       ('posonly_two_kwargs_same_name', lambda: tag2, {}, lambda f: f('input', 'second', other=R), ['other']),
       ('posonly_rest_marker', lambda: tag2, {}, lambda f: f('input', 'second', R), None),
+      ('own_new_below_base_init_unfilled', mk_new_below_init, {}, lambda f: f(3), ['colour']),
+      ('own_new_below_base_init_marker', mk_new_below_init, {}, lambda f: f(R, 'red'), ['size']),
+      ('init_alias_unfilled', lambda: mk_alias('init'), {}, lambda f: f(1), ['b']),
+      ('init_alias_caller_marker', lambda: mk_alias('init'), {}, lambda f: f(1, R), ['b']),
+      ('init_alias_filled', lambda: mk_alias('init'), {'b': 7}, lambda f: f(1), 'FILLED'),
+      ('new_alias_unfilled', lambda: mk_alias('new'), {}, lambda f: f(1), ['b']),
+      ('new_alias_filled', lambda: mk_alias('new'), {'b': 7}, lambda f: f(1, b=R), 'FILLED'),
   ]
   for name, mk, bindings, call, missing in cases:
     desc = ['odd', name]
@@ -438,7 +473,11 @@ def odd_signature_cases(res):
     del seen[:]
     res.case(tuple(desc), True)
     try:
-      cf = gin.external_configurable(mk(), name='c10o_' + name, module='c10')
+      target = mk()
+      if name.startswith(('init_alias', 'new_alias', 'own_new')):
+        cf = gin.configurable('c10o_' + name, module='c10')(target)       # (decorating in place)
+      else:
+        cf = gin.external_configurable(target, name='c10o_' + name, module='c10')
       for p, v in bindings.items():
         gin.bind_parameter('c10.c10o_%s.%s' % (name, p), v)
     except Exception as e:  # pylint: disable=broad-except
@@ -452,11 +491,62 @@ def odd_signature_cases(res):
     if any(has_marker(rec) for rec in seen):
       res.violation('marker_reached_function', '%r: bindings %r: the REQUIRED marker was handed to the function: %r (%s %r)' %
                     (desc, bindings, seen, out, got), desc)
+    elif missing == 'FILLED':
+      if out != 'ok' or [rec[-1] for rec in seen] != [7]:
+        res.violation('call_failed', '%r: REQUIRED default with binding b=7: %s %r, constructor saw %r' % (desc, out, got, seen), desc)
+      else:
+        res.w('odd_calling_conventions')
     elif missing is not None and (out != 'RuntimeError' or not all(("'%s'" % n) in str(got) for n in missing)):
       res.violation('missing_required_names', '%r: expected a clean failure naming %r, got %s %r (calls seen %r)' %
                     (desc, missing, out, got, seen), desc)
     else:
       res.w('odd_calling_conventions')
+  harness.hard_reset()
+
+
+def history_cases(res):
+  """The binding that fills a REQUIRED parameter is made late: after finalize, inside unlock_config, after the
+  configurable was already called (and failed cleanly) on the locked configuration, in this or another scope."""
+  seen = []
+
+  def train(steps=R, lr=R):
+    seen.append((steps, lr))
+    return (steps, lr)
+  for scope in ('', 's'):
+    for marker_by in ('signature', 'positional', 'keyword'):
+      desc = ['history', scope, marker_by]
+      harness.hard_reset()
+      del seen[:]
+      res.case(tuple(desc), True)
+      cf = gin.external_configurable(train, name='c10h_train', module='c10')
+      gin.bind_parameter('c10.c10h_train.lr', 0.5)
+      gin.finalize()
+      import contextlib  # pylint: disable=import-outside-toplevel
+
+      def call():
+        with (gin.config_scope(scope) if scope else contextlib.nullcontext()):
+          return {'signature': lambda: cf(), 'positional': lambda: cf(R), 'keyword': lambda: cf(steps=R)}[marker_by]()
+      try:
+        call()
+        first = 'ok'
+      except RuntimeError as e:
+        first = 'RuntimeError' if "'steps'" in str(e) and "'lr'" not in str(e) else 'wrong message: %s' % e
+      except Exception as e:  # pylint: disable=broad-except
+        first = repr(e)
+      with gin.unlock_config():
+        gin.bind_parameter((scope, 'c10.c10h_train', 'steps'), 100)
+      try:
+        second = call()
+      except Exception as e:  # pylint: disable=broad-except
+        second = repr(e)
+      res.outcome('history:%s' % first)
+      if first != 'RuntimeError' or seen[:-1]:
+        res.violation('missing_required_names', '%r: call on the locked configuration without a binding for steps: %s, body '
+                      'saw %r' % (desc, first, seen), desc)
+      elif second != (100, 0.5):
+        res.violation('call_failed', '%r: after binding steps=100 inside unlock_config the call gives %r' % (desc, second), desc)
+      else:
+        res.w('late_binding_fills_required')
   harness.hard_reset()
 
 
@@ -495,6 +585,8 @@ def run_shard(i, tier):
     builtin_cases(res)
   if i == 2:
     odd_signature_cases(res)
+  if i == 3:
+    history_cases(res)
   harness.hard_reset()
   return res
 
@@ -509,6 +601,9 @@ def replay(desc):
     return res
   if desc[0] == 'odd':
     odd_signature_cases(res)
+    return res
+  if desc[0] == 'history':
+    history_cases(res)
     return res
   sname, mitems, npos, extra, bn, bscope, active = desc
   run_case(sname, dict((k, v) for k, v in mitems), npos, extra, bn, bscope, active, res)
